@@ -353,6 +353,11 @@ static void cmd_schema_dump(void) {
         }
         printf(";%d,%d,%d", r1, r2, r3);
     }
+    /* the per-leaf level tables the writer and the column readers work from (not behind any accessor) */
+    fputc(';', stdout);
+    for (int32_t i = 0; i < nc && i < MAXCOLS; i++)
+        printf("%s%d/%d/%d", i ? "," : "", (int)s->max_def_levels[i], (int)s->max_rep_levels[i], (int)s->leaf_indices[i]);
+    if (nc == 0) fputc('-', stdout);
 }
 
 /* E:<rg>:<col>  statistics / pruning calls (memory-safety exerciser; results printed compactly) */
